@@ -427,6 +427,10 @@ func (s *Session) writeCompressed(rw io.ReadWriter, p *Proposal) (err error) {
 		s.log.Println("GZIP_EXPERIMENT:", "Transmitting gzip compressed message.")
 	}
 
+	if p.offset < 0 || p.offset > len(p.compressedData) {
+		return fmt.Errorf("Requested offset %d is beyond the end of the message", p.offset)
+	}
+
 	writer := bufio.NewWriter(rw)
 
 	var (
